@@ -14,9 +14,10 @@ import (
 var errWriterClosed = errors.New("flate: closed writer")
 
 type Writer struct {
-	err error
-	lc  LevelCompressor
-	w   *flate.Writer
+	err    error
+	closed bool // a Close has completed; never inferred from the value of err
+	lc     LevelCompressor
+	w      *flate.Writer
 }
 
 func NewWriterwWith4KWindow(under io.Writer, level int) (w *Writer, err error) {
@@ -97,6 +98,7 @@ func (w *Writer) Write(data []byte) (n int, err error) {
 
 func (w *Writer) Reset(under io.Writer) {
 	w.err = nil
+	w.closed = false
 	if w.w != nil {
 		w.w.Reset(under)
 		return
@@ -116,7 +118,11 @@ func (w *Writer) Flush() (err error) {
 }
 
 func (w *Writer) Close() (err error) {
-	if w.err == errWriterClosed {
+	if w.closed {
+		// Only a completed Close makes a further Close succeed. The state must
+		// not be recognised by comparing w.err with errWriterClosed: a
+		// destination can fail with that very value (a closed fastgo Writer
+		// used as destination returns it).
 		return nil
 	}
 	if w.err != nil {
@@ -129,6 +135,7 @@ func (w *Writer) Close() (err error) {
 	if w.err != nil {
 		return w.err
 	}
+	w.closed = true
 	w.err = errWriterClosed
 	return nil
 }
